@@ -103,11 +103,12 @@ type replayFile struct {
 	Inputs   []InputRec     `json:"inputs"`
 	Rendered string         `json:"inputs_rendered"`
 	Native   bool           `json:"native"`
+	Observed []string       `json:"observed,omitempty"`
 	Outcome  string         `json:"observed_outcome"`
 }
 
 func writeReplay(spec *CheckSpec, hs *HarnessSpec, v Violation, outcome string) (string, error) {
-	rf := replayFile{Property: spec.ID, Pkg: spec.Pkg, Harness: v.Harness, Params: v.Params, Kind: v.Kind, ID: v.ID, Detail: v.Detail, Inputs: v.Inputs, Rendered: inputsString(v.Inputs), Native: hs.Native, Outcome: outcome}
+	rf := replayFile{Property: spec.ID, Pkg: spec.Pkg, Harness: v.Harness, Params: v.Params, Kind: v.Kind, ID: v.ID, Detail: v.Detail, Inputs: v.Inputs, Rendered: inputsString(v.Inputs), Native: hs.Native, Outcome: outcome, Observed: v.Obs}
 	b, _ := json.MarshalIndent(rf, "", " ")
 	h := sha256.Sum256(b)
 	dir := filepath.Join(verifDir, "replays")
@@ -261,7 +262,7 @@ func cmdCheck(args []string) int {
 			}
 			violations++
 			fmt.Printf("VIOLATION property=%s replay=%s\n", spec.ID, path)
-			fmt.Printf("  harness=%s %s/%s %s inputs: %s\n", v.Harness, v.Kind, v.ID, v.Detail, inputsString(v.Inputs))
+			fmt.Printf("  harness=%s %s/%s %s inputs: %s observed: %v\n", v.Harness, v.Kind, v.ID, v.Detail, inputsString(v.Inputs), v.Obs)
 			ev.ViolationList = append(ev.ViolationList, fmt.Sprintf("%s %s/%s %s inputs: %s", v.Harness, v.Kind, v.ID, v.Detail, inputsString(v.Inputs)))
 		}
 	}
